@@ -29,11 +29,20 @@ var leaked atomic.Int64
 type runner struct {
 	in  chan func() error
 	out chan outcome
+	gid atomic.Int64 // id of its goroutine
+}
+
+func goroutineID() int64 {
+	var buf [64]byte
+	var id int64
+	fmt.Sscanf(string(buf[:runtime.Stack(buf[:], false)]), "goroutine %d ", &id)
+	return id
 }
 
 func newRunner() *runner {
 	r := &runner{in: make(chan func() error), out: make(chan outcome, 1)}
 	go func() {
+		r.gid.Store(goroutineID())
 		for f := range r.in {
 			r.out <- protect(f)
 		}
@@ -111,30 +120,23 @@ func (g *guard) run(f func() error) outcome {
 		return o
 	case <-g.timer.C:
 		leaked.Add(1)
+		stack := stuckStack(g.r.gid.Load())
 		g.r = newRunner()
-		return outcome{TimedOut: true, Stack: stuckStack()}
+		return outcome{TimedOut: true, Stack: stack}
 	}
 }
 
-// stuckStack is the stack (frames of core) of the newest goroutine that is still inside a guarded closure:
-// the one that has just missed its deadline.
-func stuckStack() string {
-	buf := make([]byte, 4<<20)
+// stuckStack is the stack (frames of core) of the runner goroutine that has just missed its deadline.
+func stuckStack(gid int64) string {
+	buf := make([]byte, 8<<20)
 	buf = buf[:runtime.Stack(buf, true)]
-	best, bestID := "", -1
+	prefix := fmt.Sprintf("goroutine %d ", gid)
 	for _, gr := range strings.Split(string(buf), "\n\n") {
-		if !strings.Contains(gr, "main.protect(") || !strings.Contains(gr, "go.sia.tech/core/") {
-			continue
-		}
-		var id int
-		if _, err := fmt.Sscanf(gr, "goroutine %d ", &id); err != nil {
-			continue
-		}
-		if id > bestID {
-			best, bestID = gr, id
+		if strings.HasPrefix(gr, prefix) {
+			return trimStack(gr)
 		}
 	}
-	return trimStack(best)
+	return ""
 }
 
 // allocStack runs f once more and returns the call stack (frames of core, innermost first) that allocated the most
